@@ -17,7 +17,7 @@ from mapproxy.compat.image import Image, ImageDraw
 from mapproxy.srs import SRS, make_lin_transf
 from mapproxy.image import ImageSource
 from mapproxy.image.opts import create_image
-from mapproxy.util.geom import flatten_to_polygons
+from mapproxy.util.geom import flatten_to_polygons, bbox_polygon
 
 
 def mask_image_source_from_coverage(img_source, bbox, bbox_srs, coverage,
@@ -42,6 +42,11 @@ def mask_image(img, bbox, bbox_srs, coverage):
 def mask_polygons(bbox, bbox_srs, coverage):
     coverage = coverage.transform_to(bbox_srs)
     coverage = coverage.intersection(bbox, bbox_srs)
+    if coverage is None:
+        return []
+    if coverage.geom is None:
+        # BBOXCoverage
+        return [bbox_polygon(coverage.bbox)]
     return flatten_to_polygons(coverage.geom)
 
 
